@@ -43,6 +43,21 @@ PROPS = {
                         "the store answers a balance query with balances or an error (store_wellbehaved)"],
         "trusted_base": [INTERP_MODELLED, "Go runtime panics outside the modelled sites (e.g. inside math/big) are observed by recover() only"],
     },
+    "C16": {
+        "rule": "statically valid scripts from the generator (all constructs, six types, variables in every position, bounded overdraft and caps under send-all) and, for every second one, one edit among: delete / duplicate / move a declaration, rename or retarget a use, add an unused declaration; one script in five is ill-typed on purpose. analysis.CheckSource diagnostics (kind with payload, severity, range) and symbols compared with the model's; unbound / duplicate / unused diagnostics compared with Spec/Names.v, error-severity diagnostics forbidden when Spec/Typing.valid holds. Non-trivial: the text parses without error; distinct by hash.",
+        "assumptions": ["Spec/Typing.valid is a conservative reading of 'valid by the language's static rules' (it excludes warning-only scripts)", "Spec/Names.v fixes 'not yet declared' as program order: a declaration is in scope for the arguments of its own origin"],
+        "trusted_base": ["modelled rather than verified: analysis/check.go, diagnostic_kind.go, document_symbols.go (coq/Model/Check.v)"],
+    },
+    "C17": {
+        "rule": "well-typed generated scripts x one type-breaking edit (re-declare a type, delete a declaration, break the arity / name / context of a call or origin, replace a use by a literal of any type, mismatched infix operands, turn a send into send-all) x variable values of the DECLARED types (no account variable bound to world) x balances; each script is checked (analysis.CheckSource) AND run (numscript.Parse(..).Run). Non-trivial: the checker reports no error; distinct by hash.",
+        "assumptions": ["variable values have their declared types and no account variable is bound to 'world' (the property speaks of the shape of the source)"],
+        "trusted_base": ["modelled rather than verified: analysis/check.go and the interpreter (coq/Model)"],
+    },
+    "C18": {
+        "rule": "texts reachable by editing generated scripts at token level (prefix, delete / duplicate / insert / swap tokens, delete a run, unbalance brackets, drop a declaration's name or type, token soups; one or two edits) in two layouts, plus the corpus of texts that crashed the pinned tree; for each text: CheckSource + GetSymbols twice, HoverOn and GotoDefinition at EVERY position (line, 0..length+1). Model compared on diagnostics, symbols and every hover / definition answer. Non-trivial: the text has syntax errors; distinct by hash.",
+        "assumptions": ["PARTIAL: the text -> raw tree step (ANTLR recovery) is explored, not proved; the theorems quantify over all raw trees without the nil shapes of tree_safe"],
+        "trusted_base": ["modelled rather than verified: analysis/check.go, hover.go, goto_definition.go, document_symbols.go"],
+    },
     "C03": {
         "rule": SCRIPTS_RULE + "profile: one fixed-amount send (optionally preceded by saves). Non-trivial: source and destination trees evaluate and the send reaches the draw; distinct by hash of the case.",
         "assumptions": ["Spec/Greedy.v (draw_exact) is what 'the sources, drawn in their declared order within their balances, caps and overdraft limits, can supply' means",
